@@ -995,6 +995,162 @@ theorem submitReq_live (W : World Node VH V) (hOK : W.OK) (ht : Ht) (hHt : HtOK 
               obtain ⟨m3, e3, hm3, g1, g2, g3, _, _, _, _, g8⟩ := submitIdleLoad_inv W ht _ _ hm2 si pid 0 e4 hnl
               exact ⟨m3, _, e3, hm3, g2, by rw [g1]; simp, g3, g8⟩
 
+theorem reqFuel_enough (W : World Node VH V) {ps : PageSet Node} {r : Req Node VH V} {a : Option Query}
+    (h : ReqOK W ps r a) : reqMeasure W.env.leaves.length r a < reqFuel W.env := by
+  have h1 := reqMeasure_le h
+  have h3 : (257 - r.pos.depth) * (2 * W.env.leaves.length + 6) ≤ 257 * (2 * W.env.leaves.length + 6) :=
+    Nat.mul_le_mul_right _ (by omega)
+  unfold reqFuel
+  omega
+
+/-- **`submit_key_path_request(page_set, request_index)`** as `submit_idle_key_path_requests` calls it -/
+theorem submitReq_inv (W : World Node VH V) (hOK : W.OK) (ht : Ht) (hHt : HtOK W ht) (m : Mux Node VH V)
+    (aw : Nat → Option Query) (idx : Nat) (h : MInv W ht m aw) (ha : aw idx = none) (hid : idx ∉ m.idleReqs)
+    (hlt : idx < m.processed + m.reqs.length) :
+    ∃ m' aw', submitReq W.env ht (reqFuel W.env) m idx = .ok m' ∧ MInv W ht m' aw' ∧ m'.processed = m.processed ∧
+      m'.reqs.length = m.reqs.length ∧ m'.idleReqs = m.idleReqs ∧ m'.maxInflight = m.maxInflight := by
+  by_cases hd : idx < m.processed
+  · have : reqFuel W.env = (reqFuel W.env - 1) + 1 := by unfold reqFuel; omega
+    rw [this]
+    unfold submitReq
+    rw [if_pos hd]
+    exact ⟨m, aw, rfl, h, rfl, rfl, rfl, rfl⟩
+  · have hp : m.processed ≤ idx := by omega
+    have hl : idx - m.processed < m.reqs.length := by omega
+    have hi : m.reqs[idx - m.processed]? = some m.reqs[idx - m.processed] := List.getElem?_eq_getElem hl
+    have hr := minv_req h hi
+    rw [show m.processed + (idx - m.processed) = idx by omega, ha] at hr
+    exact submitReq_live W hOK ht hHt _ m aw idx _ h hp hi ha hid (reqFuel_enough W hr)
+
+/-- `submit_idle_key_path_requests` -/
+theorem submitIdleReqs_inv (W : World Node VH V) (hOK : W.OK) (ht : Ht) (hHt : HtOK W ht) :
+    ∀ (l : List Nat) (m : Mux Node VH V) (aw : Nat → Option Query), MInv W ht m aw → m.idleReqs = l →
+    ∃ m' aw', submitIdleReqs W.env ht l m = .ok m' ∧ MInv W ht m' aw' ∧ m'.processed = m.processed ∧
+      m'.reqs.length = m.reqs.length ∧ m'.maxInflight = m.maxInflight
+  | [], m, aw, h, _ => ⟨m, aw, rfl, h, rfl, rfl, rfl⟩
+  | idx :: rest, m, aw, h, hl => by
+    unfold submitIdleReqs
+    cases hroom : m.hasRoom with
+    | false => exact ⟨m, aw, rfl, h, rfl, rfl, rfl⟩
+    | true =>
+      simp only [Bool.not_true, Bool.false_eq_true, if_false]
+      have hn := h.idleN
+      rw [hl] at hn
+      have hn' := List.nodup_cons.1 hn
+      have hmem : idx ∈ m.idleReqs := by rw [hl]; exact List.mem_cons_self ..
+      have h1 : MInv W ht { m with idleReqs := rest } aw :=
+        ⟨h.sys, h.wkeys, h.wmem, hn'.2, fun i hi => h.idle i (by rw [hl]; exact List.mem_cons_of_mem _ hi), h.slabwf,
+          h.merk, h.inflN, h.infl, h.idleLN, h.idleL⟩
+      obtain ⟨m1, aw1, e1, i1, f1, f2, f3, f4⟩ := submitReq_inv W hOK ht hHt _ aw idx h1 (h.idle idx hmem).1 hn'.1
+        (h.idle idx hmem).2
+      rw [e1]
+      simp only
+      obtain ⟨m2, aw2, e2, i2, g1, g2, g3⟩ := submitIdleReqs_inv W hOK ht hHt rest m1 aw1 i1 f3
+      exact ⟨m2, aw2, e2, i2, g1.trans f1, g2.trans f2, g3.trans f4⟩
+
+/-- **`submit_all(page_set)`** -/
+theorem submitAll_inv (W : World Node VH V) (hOK : W.OK) (ht : Ht) (hHt : HtOK W ht) (m : Mux Node VH V)
+    (aw : Nat → Option Query) (h : MInv W ht m aw) :
+    ∃ m' aw', submitAll W.env ht m = .ok m' ∧ MInv W ht m' aw' ∧ m'.processed = m.processed ∧
+      m'.reqs.length = m.reqs.length ∧ m'.maxInflight = m.maxInflight := by
+  unfold submitAll
+  cases hroom : m.hasRoom with
+  | false => exact ⟨m, aw, rfl, h, rfl, rfl, rfl⟩
+  | true =>
+    simp only [Bool.not_true, Bool.false_eq_true, if_false]
+    obtain ⟨m1, e1, i1, f1, f2, _, _, _, f6⟩ := submitIdleLoads_inv W ht aw m.idleLoads m h rfl
+    rw [e1]
+    simp only
+    obtain ⟨m2, aw2, e2, i2, g1, g2, g3⟩ := submitIdleReqs_inv W hOK ht hHt m1.idleReqs m1 aw i1 rfl
+    exact ⟨m2, aw2, e2, i2, g1.trans f2, by rw [g2, f1], g3.trans f6⟩
+
+/-- the waiter loop of a completion handler: every request of the list waits for `q`, `deliver` serves one of them -/
+theorem wakeLoop_inv (W : World Node VH V) (ht : Ht) (q : Query)
+    (deliver : PageSet Node → Req Node VH V → Outcome Unit (PageSet Node × Req Node VH V))
+    (hdel : ∀ (s : Sys Node VH V) (i : Nat) (r : Req Node VH V), SysInv W s → s.reqs[i]? = some (r, some q) →
+      ∃ ps' r', deliver s.ps r = .ok (ps', r') ∧
+        SysInv W { ps := ps', cache := s.cache, reqs := s.reqs.set i (r', none) }) :
+    ∀ (l : List Nat) (m : Mux Node VH V) (aw : Nat → Option Query), MInv W ht m aw → q ∉ m.waiters.map (·.1) → l.Nodup →
+    (∀ idx ∈ l, aw idx = some q ∧ m.processed ≤ idx ∧ idx < m.processed + m.reqs.length) →
+    ∃ m' aw', wakeLoop deliver l m = .ok m' ∧ MInv W ht m' aw' ∧ m'.processed = m.processed ∧
+      m'.reqs.length = m.reqs.length ∧ m'.maxInflight = m.maxInflight
+  | [], m, aw, h, _, _, _ => ⟨m, aw, rfl, h, rfl, rfl, rfl⟩
+  | w :: rest, m, aw, h, hq, hn, hl => by
+    obtain ⟨haw, hp, hlt⟩ := hl w (List.mem_cons_self ..)
+    have hn' := List.nodup_cons.1 hn
+    have hlen : w - m.processed < m.reqs.length := by omega
+    have hi : m.reqs[w - m.processed]? = some m.reqs[w - m.processed] := List.getElem?_eq_getElem hlen
+    have hpi : m.processed + (w - m.processed) = w := by omega
+    have hr := minv_req h hi
+    rw [hpi, haw] at hr
+    have hnc : (m.reqs[w - m.processed]).isCompleted = false := by
+      cases hc : (m.reqs[w - m.processed]).isCompleted with
+      | false => rfl
+      | true => have := completed_aw hr hc; cases this
+    have hsi : (absSys m aw).reqs[w - m.processed]? = some (m.reqs[w - m.processed], some q) := by
+      have := absSys_get (aw := aw) hi
+      rw [hpi, haw] at this; exact this
+    obtain ⟨ps', r', e1, e2⟩ := hdel (absSys m aw) (w - m.processed) _ h.sys hsi
+    have e1' : deliver m.ps m.reqs[w - m.processed] = .ok (ps', r') := e1
+    unfold wakeLoop
+    rw [if_neg (by omega), hi]
+    simp only [hnc, Bool.false_eq_true, if_false, e1']
+    have hwi : w ∉ m.idleReqs := fun hm => by have := (h.idle w hm).1; rw [haw] at this; cases this
+    have hm2 : MInv W ht { m with ps := ps', reqs := m.reqs.set (w - m.processed) r',
+                                  idleReqs := if r'.isCompleted then m.idleReqs else m.idleReqs ++ [w] }
+        (upd aw w none) := by
+      refine ⟨?_, h.wkeys, ?_, ?_, ?_, h.slabwf, h.merk, h.inflN, h.infl, h.idleLN, h.idleL⟩
+      · have : absSys { m with ps := ps', reqs := m.reqs.set (w - m.processed) r',
+                                 idleReqs := if r'.isCompleted then m.idleReqs else m.idleReqs ++ [w] }
+              (upd aw w none) =
+            { ps := ps', cache := m.cache, reqs := (absSys m aw).reqs.set (w - m.processed) (r', none) } := by
+          simp only [absSys]
+          have := tag_set_upd aw m.reqs m.processed (w - m.processed) r' none
+          rw [hpi] at this
+          rw [this]
+        rw [this]; exact e2
+      · intro q' w' hqw
+        simp only [List.length_set]
+        obtain ⟨n0, h2⟩ := h.wmem q' w' hqw
+        refine ⟨n0, fun idx' hidx' => ?_⟩
+        obtain ⟨a, b, c⟩ := h2 idx' hidx'
+        have : idx' ≠ w := fun e => by
+          rw [e, haw] at a
+          cases a
+          exact hq (List.mem_map.2 ⟨(q, w'), hqw, rfl⟩)
+        exact ⟨by rw [upd_ne _ _ this]; exact a, b, c⟩
+      · simp only
+        split
+        · exact h.idleN
+        · rw [List.nodup_append]
+          refine ⟨h.idleN, by simp, ?_⟩
+          intro a ha b hb
+          have : b = w := by simpa using hb
+          subst this
+          exact fun e => hwi (e ▸ ha)
+      · intro idx' hidx'
+        simp only [List.length_set]
+        have old : ∀ i ∈ m.idleReqs, upd aw w none i = none ∧ i < m.processed + m.reqs.length := by
+          intro i hi'
+          obtain ⟨a, b⟩ := h.idle i hi'
+          have : i ≠ w := fun e => hwi (e ▸ hi')
+          exact ⟨by rw [upd_ne _ _ this]; exact a, b⟩
+        simp only at hidx'
+        split at hidx'
+        · exact old idx' hidx'
+        · rcases List.mem_append.1 hidx' with h3 | h3
+          · exact old idx' h3
+          · have : idx' = w := by simpa using h3
+            subst this
+            exact ⟨upd_self _ _ _, hlt⟩
+    obtain ⟨m3, aw3, e3, i3, g1, g2, g3⟩ := wakeLoop_inv W ht q deliver hdel rest _ _ hm2 hq hn'.2 (by
+      intro idx hidx
+      obtain ⟨a, b, c⟩ := hl idx (List.mem_cons_of_mem _ hidx)
+      have : idx ≠ w := fun e => hn'.1 (e ▸ hidx)
+      simp only [List.length_set]
+      exact ⟨by rw [upd_ne _ _ this]; exact a, b, c⟩)
+    exact ⟨m3, aw3, e3, i3, g1, by rw [g2]; simp, g3⟩
+
 end inv
 
 end Nomt.Seeker
